@@ -24,7 +24,8 @@ from clvm import to_list, canon, ser
 GEN = ["opcodes", "ladders", "chainconsts"]
 RULE = ("accepted generators (quoted spend lists from the cond grammar, quote and pool puzzles, 6 valid scenarios) enriched "
         "with 11 memo shapes on every CREATE_COIN (absent, nil, EMPTY-atom/32/33/1-byte first memo, two memos, pair first memo, "
-        "improper list, atom instead of list, 32-byte memo with non-nil tail), amount encodings and spend-level extras, x flag sets, "
+        "improper list, atom instead of list, 32-byte memo with non-nil tail) x arguments after the memo list (none, atom, nil, pair, "
+        "improper tail), amount encodings and spend-level extras, x flag sets, "
         "twin spends sharing two of (parent, puzzle, amount), plus rejected and "
         "malformed generators (helpers are total) and /repo/generator-tests. "
         "non-trivial/distinct = distinct (source kind, memo shape, flag class, helper verdicts, spend-count bucket)")
@@ -79,7 +80,14 @@ def memo_rewriter(rng, allow_empty=True):
                 used.append(name)
                 m = shape_tree(name)
                 ph, amt = c[1][0], c[1][1][0]
-                c = (c[0], (ph, (amt, b"" if m is None else (m, b""))))
+                # what follows the memo list: usually nothing; else further arguments (valid without STRICT_ARGS_COUNT),
+                # which neither validation nor the helper may let influence the hint
+                after = b""
+                if m is not None and rng.chance(1, 3):
+                    after = rng.choice([to_list([b"\x13\x37"]), to_list([b""]), to_list([(b"a", b"b")]), b"\x01",
+                                        to_list([rng.bytes(32), b"x"]), (b"", b"\x05")])
+                    used.append("trailing-after-memo")
+                c = (c[0], (ph, (amt, b"" if m is None else (m, after))))
             out.append(c)
             t = t[1]
         return to_list(out, t)
@@ -247,6 +255,15 @@ def run(ctx):
             fl = F["DONT_VALIDATE_SIGNATURE"] | (F["COST_CONDITIONS"] if mr.chance(1, 2) else 0) | (F["SIMPLE_GENERATOR"] if mr.chance(1, 4) else 0)
             cases.append({"program": prog, "refs": [], "flags": fl, "max_cost": G.BLOCK, "kind": "memo", "tags": [("memo", shape)],
                           "memo_used": used})
+    # every (first memo, argument after the memo list) combination once per run: the hint must not depend on what follows
+    fr = rng.fork("memo-after")
+    for hint in (fr.bytes(32), b"\x42", b"", fr.bytes(33)):
+        for after in (to_list([b"\x13\x37"]), to_list([b""]), to_list([(b"a", b"b")]), b"\x01"):
+            cond = (b"\x33", (fr.bytes(32), (canon(1000), (to_list([hint]), after))))
+            spend = to_list([fr.bytes(32), (b"\x01", to_list([cond])), canon(1000), b""])
+            cases.append({"program": ser((b"\x01", (to_list([spend]), b""))), "refs": [], "flags": F["DONT_VALIDATE_SIGNATURE"],
+                          "max_cost": G.BLOCK, "kind": "memo-after", "tags": [("memo-after", "%d" % len(hint))],
+                          "memo_used": ["trailing-after-memo"]})
     # twins: spends that share two of (parent, puzzle, amount) and differ in the third and in the solution, so a
     # lookup that ignores one component of the coin returns the wrong spend
     tr = rng.fork("twins")
